@@ -376,18 +376,33 @@ impl ClusterHandler for GenCommHandler<'_> {
 
             CommissioningErrorEnum::map(ctx.exchange().with_state(|state| {
                 let sess = ctx.exchange().id().session(&mut state.sessions);
-                let pase_sess_id =
-                    matches!(sess.get_session_mode(), SessionMode::Pase { .. }).then(|| sess.id());
+                // Our own session must survive (marked as expired) until the response is sent -
+                // be it the PASE session, or a CASE session on the fabric being rolled back
+                let own_sess_id = Some(sess.id());
 
                 removed_fabric = state.failsafe.expire(
                     &mut state.fabrics,
                     &mut state.sessions,
-                    pase_sess_id,
+                    own_sess_id,
                     ctx.networks(),
                     ctx.kv(),
                     notify_mdns,
                     notify_change,
                 )?;
+
+                if let Some(_fab_idx) = removed_fabric {
+                    // The rolled-back fabric's CASE resumption records go with it
+                    #[cfg(feature = "case-resumption")]
+                    {
+                        state.resumption.remove_for_fabric(_fab_idx);
+                        ctx.exchange()
+                            .matter()
+                            .transport()
+                            .notify_resumption_dirty();
+                    }
+
+                    ctx.exchange().matter().transport().notify_session_removed();
+                }
 
                 Ok(())
             }))?
